@@ -185,6 +185,39 @@ func TestVerifBounded(t *testing.T) {
 			}
 		}
 	}
+	// long against tiny texts (the LCS search gives up beyond a depth limit and falls back): every tiny text
+	// against generated texts of 40..400 bytes, in both directions
+	tiny := []string{"", "\n", "a", "a\n", "}\n", "é\n", "ab", "\n\n"}
+	var long []string
+	for _, n := range []int{40, 101, 130, 400} {
+		var x, y, z strings.Builder
+		for i := 0; x.Len() < n; i++ {
+			fmt.Fprintf(&x, "w%d ", i)
+			fmt.Fprintf(&y, "%c", 'a'+rune(i%26))
+			fmt.Fprintf(&z, "l%d\n", i*7%13)
+		}
+		long = append(long, x.String(), y.String(), z.String(), y.String()+"\n", "é"+z.String())
+	}
+	for _, a := range tiny {
+		for _, b := range long {
+			for _, pr := range [][2]string{{a, b}, {b, a}} {
+				cases++
+				var got string
+				var err error
+				func() {
+					defer func() {
+						if r := recover(); r != nil {
+							err = fmt.Errorf("panic: %v", r)
+						}
+					}()
+					got, err = Apply(pr[0], Strings(pr[0], pr[1]))
+				}()
+				if err != nil || got != pr[1] {
+					t.Fatalf("COUNTEREXAMPLE Apply(before, Strings(before, after)) for before %q, after %q: %q, %v", pr[0], pr[1], got, err)
+				}
+			}
+		}
+	}
 	// line-level sweep: a text of nLines numbered lines; every subset of its lines is changed (replaced by a
 	// new line, or deleted, or given a line inserted behind it), which produces every pattern of hunks -
 	// separate, joined by up to six equal lines, extended directly; the rendering must apply back and every
@@ -222,5 +255,5 @@ func TestVerifBounded(t *testing.T) {
 			}
 		}
 	}
-	fmt.Printf("BOUNDED {\"cases\": %d, \"bound\": \"all pairs of texts of at most %d symbols over {a, b, newline, U+00E9, U+4E16, invalid byte 0xFF}; a text of %d numbered lines with every non-empty subset of lines replaced / deleted / followed by an insertion, unified rendering applied back by a strict applier (hunk counts and new-file line numbers checked)\"}\n", cases, maxLen, nLines)
+	fmt.Printf("BOUNDED {\"cases\": %d, \"bound\": \"all pairs of texts of at most %d symbols over {a, b, newline, U+00E9, U+4E16, invalid byte 0xFF}; 8 tiny texts against 20 generated texts of 40..400 bytes in both directions; a text of %d numbered lines with every non-empty subset of lines replaced / deleted / followed by an insertion, unified rendering applied back by a strict applier (hunk counts and new-file line numbers checked)\"}\n", cases, maxLen, nLines)
 }
